@@ -266,6 +266,27 @@ func runC02(c *Collector, r *Rng, thorough bool) {
 			},
 			func() cose.Headers { return cose.Headers{Protected: cose.ProtectedHeader{int64(4): []byte("kid")}} },
 			func() cose.Headers { return cose.Headers{Unprotected: cose.UnprotectedHeader{int64(4): []byte("kid")}} },
+			// the protected bucket supplied as bytes: alone, next to a map that mirrors them, next to a map that does not
+			func() cose.Headers { return cose.Headers{RawProtected: []byte{0x43, 0xa1, 0x01, 0x26}} },
+			func() cose.Headers {
+				return cose.Headers{RawProtected: []byte{0x43, 0xa1, 0x01, 0x26}, Protected: cose.ProtectedHeader{cose.HeaderLabelAlgorithm: cose.AlgorithmES256}}
+			},
+			func() cose.Headers {
+				return cose.Headers{RawProtected: []byte{0x47, 0xa2, 0x01, 0x26, 0x04, 0x42, 0x6b, 0x31}, Protected: cose.ProtectedHeader{cose.HeaderLabelAlgorithm: cose.AlgorithmES256}}
+			},
+			func() cose.Headers {
+				return cose.Headers{RawProtected: []byte{0x58, 0x03, 0xa1, 0x01, 0x26}, Unprotected: cose.UnprotectedHeader{int64(4): []byte("kid")}, RawUnprotected: []byte{0xa0}}
+			},
+			// the unprotected bucket says something about label 1: it contributes nothing
+			func() cose.Headers {
+				return cose.Headers{Unprotected: cose.UnprotectedHeader{int64(1): cose.AlgorithmES256}}
+			},
+			func() cose.Headers {
+				return cose.Headers{Unprotected: cose.UnprotectedHeader{int8(1): int64(-7), int64(4): []byte("kid")}}
+			},
+			func() cose.Headers {
+				return cose.Headers{Protected: cose.ProtectedHeader{}, Unprotected: cose.UnprotectedHeader{int64(1): int64(-35)}}
+			},
 		} {
 			for _, ext := range [][]byte{nil, {}, []byte("ext")} {
 				h := mk()
@@ -306,9 +327,19 @@ func runC02(c *Collector, r *Rng, thorough bool) {
 				if len(body.Kids) != 4 {
 					continue
 				}
-				if signed := tbsElement(sg.calls[0], 1); !bytes.Equal(signed, body.Kids[0].Ser()) {
-					c.Fail("C02/sign1-structure", fmt.Sprintf("%s: the signer was handed protected bytes %x, the serialised message carries %x", entry, signed, body.Kids[0].Ser()), rep)
+				// (only the length prefix may differ: the structure carries the shortest form)
+				if signed, perr := refParseFull(tbsElement(sg.calls[0], 1)); perr != nil || signed.Maj != 2 || !bytes.Equal(signed.Str, body.Kids[0].Str) {
+					c.Fail("C02/sign1-structure", fmt.Sprintf("%s: the signer was handed protected bytes %x, the serialised message carries %x", entry, tbsElement(sg.calls[0], 1), body.Kids[0].Ser()), rep)
 					continue
+				}
+				// the same headers with nothing in the unprotected bucket: the same bytes are signed
+				if hb := mk(); len(hb.Unprotected) > 0 && len(hb.RawUnprotected) == 0 {
+					hb.Unprotected = nil
+					sgb := &spySigner{alg: cose.AlgorithmES256, kind: SOk, sig: []byte{1, 2, 3}}
+					mb := &cose.Sign1Message{Headers: hb, Payload: payload}
+					if errb := mb.Sign(nil, ext, sgb); (errb == nil) != (err == nil) || (errb == nil && len(sgb.calls) == 1 && !bytes.Equal(sgb.calls[0], sg.calls[0])) {
+						c.Fail("C02/invariance/unprotected-edit", fmt.Sprintf("%s: with the unprotected bucket %v the signer is handed %x, with an empty one %x (%v)", entry, mk().Unprotected, sg.calls[0], sgb.calls, errb), rep)
+					}
 				}
 				want := refArray(refTstr("Signature1"), refBstr(body.Kids[0].Str), refBstr(orEmpty(ext)), refBstr(payload))
 				if !bytes.Equal(want, sg.calls[0]) {
